@@ -230,6 +230,8 @@ class Engine(CoreMixin, ExprMixin, CallMixin, StmtMixin, BuiltinMixin):
                 self.obl("kind", fi.node, st, self.kind_pred(hint, t), detail=f"parameter {pname} is {hint[0]}")
             self.entry_pc = st.pc
             self.cover(fi.node, st, "entry (requires satisfiable)")
+            if any(isinstance(x, (ast.Yield, ast.YieldFrom)) for x in ast.walk(fi.node)):
+                st.env = {**st.env, "__yield__": PyList([], "list")}      # a generator starts with nothing yielded
             outcomes = self.exec_block(st, fi.node.body)
             if any(isinstance(x, (ast.Yield, ast.YieldFrom)) for x in ast.walk(fi.node)):
                 outcomes = [(s, ("return", s.env.get("__yield__", PyList([], "list"))) if (sig is None or sig[0] == "return") else sig)
@@ -317,6 +319,17 @@ class Engine(CoreMixin, ExprMixin, CallMixin, StmtMixin, BuiltinMixin):
         facts = list(glob + esc) + list(o.pc)
         if o.expect == "unsat" and getattr(self, "slice_facts", True):
             facts = self.relevant(facts, o.goal)
+            # the defining equation of a conditional-append list is only needed for index-level reasoning (length, nth);
+            # when everything else speaks of the list through membership atoms (lseq R) only, it is dropped (dropping an
+            # assumption is sound) -- it is the expensive part for the sequence solvers
+            import re as _re2
+            for f in list(facts):
+                m = _re2.match(r"\(= (pv_clist_\d+) \(v_list ", f)
+                if m:
+                    r = m.group(1)
+                    rest = " ".join(x for x in facts if x is not f) + " " + o.goal
+                    if not _re2.search(r"(?<!\(lseq )" + r + r"(?![\w])", rest):
+                        facts.remove(f)
         for f in facts:
             body.append(f"(assert {f})")
         if o.expect == "unsat":
@@ -337,8 +350,6 @@ class Engine(CoreMixin, ExprMixin, CallMixin, StmtMixin, BuiltinMixin):
             btext = "\n".join(body)
         if "MEM-EX" in (getattr(contract, "lemmas", []) or []):
             parts.append(smt.spec_module("mod_mem"))
-        if "(ismem " in btext:
-            parts.append(smt.spec_module("mod_ismem"))
         if "DICT-ITEM" in (getattr(contract, "lemmas", []) or []):
             parts.append(smt.spec_module("mod_dict"))
         if "is_json" in btext:
@@ -434,7 +445,7 @@ class Engine(CoreMixin, ExprMixin, CallMixin, StmtMixin, BuiltinMixin):
             rep, o = ro
             first = o.result.attempts
             o.result = smt.solve_text(text_of(ro), timeout=timeout, keep_dir=keep_dir, name=o.name, quick_first=False, race_all=True,
-                                      order=["cvc5-1.0.3", "z3-4.8.12"] if getattr(self, "lean_race", True) else None)
+                                      order=None)
             o.result.attempts = list(first) + list(o.result.attempts)
             return ro
 
@@ -452,7 +463,7 @@ class Engine(CoreMixin, ExprMixin, CallMixin, StmtMixin, BuiltinMixin):
         with ThreadPoolExecutor(jobs) as pool:
             list(pool.map(quick, obls))
         hard = [ro for ro in obls if ro[1].result.status not in ("sat", "unsat")]
-        with ThreadPoolExecutor(max(1, min(6, jobs // 2))) as pool:
+        with ThreadPoolExecutor(max(1, min(5, jobs // 3))) as pool:
             list(pool.map(full, hard))
         # what is still open gets the whole machine, one obligation at a time, with all three solvers
         left = [ro for ro in hard if ro[1].result.status not in ("sat", "unsat")]
